@@ -3,10 +3,11 @@
    decision part of SEVM.jumpi regenerated on every run) and Proofs/RunnerProofs.v (over
    Gen/GenRunTest.v: which logs/warnings run_test, setup and run_target_function report) and
    Proofs/ReportProofs.v (over Gen/GenCutWarn.v: the --depth cut of SEVM.run and the text of its warning,
-   Gen/GenLogFilter.v: the de-duplicating logger of logs.py). *)
+   Gen/GenLogFilter.v: the de-duplicating logger of logs.py) and Proofs/InvCutProofs.v (over Gen/GenFrontierCls.v: the
+   filters _compute_frontier applies to each result state of a target transaction, in source order). *)
 From Coq Require Import ZArith List Bool.
-From HV Require Import Gen.GenJumpi Gen.GenRunTest Gen.GenCutWarn Gen.GenLogFilter Spec.PanicSpec Model.RunnerModel Model.ReportModel
-  Proofs.JumpiProofs Proofs.RunnerProofs Proofs.ReportProofs.
+From HV Require Import Gen.GenJumpi Gen.GenRunTest Gen.GenCutWarn Gen.GenLogFilter Gen.GenFrontierCls Spec.PanicSpec Model.RunnerModel Model.ReportModel
+  Model.InvCutModel Proofs.JumpiProofs Proofs.RunnerProofs Proofs.ReportProofs Proofs.InvCutProofs.
 Import ListNotations.
 Open Scope Z_scope.
 
@@ -162,6 +163,72 @@ Theorem C10_unsupported_opcode_is_stuck :
 Proof. exact unsupported_opcode_stuck. Qed.
 Print Assumptions C10_unsupported_opcode_is_stuck.
 
+(* invariant testing, _compute_frontier: the filters applied to each result state of a target transaction are
+   regenerated IN SOURCE ORDER (Gen/GenFrontierCls.v: frontier_step = the effects performed on the state).  A state
+   whose call is stuck is reported by an ERROR line (error(<text>), never de-duplicated), does not join the frontier
+   and raises nothing -- for EVERY combination of the other observations: output.error set or not (the internal error
+   was raised in the target's own frame or further down), is_panic_of true / false / raising, fail flag, probe
+   already reported, state already visited *)
+Theorem C10_frontier_stuck_decision : forall he p fs pr v,
+  has_eff (frontier_step true he p fs pr v) FE_ERROR = true /\
+  has_eff (frontier_step true he p fs pr v) FE_NEXT = false /\
+  has_eff (frontier_step true he p fs pr v) FE_RAISE = false.
+Proof. exact step_stuck. Qed.
+Print Assumptions C10_frontier_stuck_decision.
+
+(* ... hence, for every list of result states (all targets, selectors, paths and depths, in execution order), every
+   panic-code configuration and whatever was reported / visited before: EVERY explored target-call path that ended in
+   a HalmosException of its own frame (EHalmos) or without output (internal error in a nested call) is named by an
+   ERROR line -- unless an exception raised on an EARLIER state ended the computation (the test then gets [ERROR]) *)
+Theorem C10_frontier_cut_path_reported : forall (Q : Type) codes (ss : list (tstate Q)) k s,
+  nth_error ss k = Some s ->
+  (root_err (l_ctx (ts_leaf s)) = EHalmos \/ l_data (ts_leaf s) = None) ->
+  In k (f_errors (frontier_run Q codes ss)) \/
+  (exists j, f_raised (frontier_run Q codes ss) = Some j /\ (j < k)%nat).
+Proof. exact frontier_cut_reported. Qed.
+Print Assumptions C10_frontier_cut_path_reported.
+
+(* the states that join a frontier (the invariant is evaluated on them, deeper transactions start from them) belong
+   to calls that completed without any error *)
+Theorem C10_frontier_next_states_complete : forall (Q : Type) codes (ss : list (tstate Q)) x,
+  In x (f_next (frontier_run Q codes ss)) ->
+  exists s, nth_error ss x = Some s /\
+            ~ (root_err (l_ctx (ts_leaf s)) = EHalmos \/ l_data (ts_leaf s) = None) /\
+            root_err (l_ctx (ts_leaf s)) = ENone.
+Proof. exact frontier_next_complete. Qed.
+Print Assumptions C10_frontier_next_states_complete.
+
+(* a result state is dropped SILENTLY (no effect at all) only if its call completed: an ordinary revert (no configured
+   panic, no fail flag), an assertion failure of a probe that was already reported, or a state already visited *)
+Theorem C10_frontier_silent_drop_is_complete : forall (Q : Type) codes (s : tstate Q),
+  step_effects Q codes s = 0 ->
+  ~ (root_err (l_ctx (ts_leaf s)) = EHalmos \/ l_data (ts_leaf s) = None) /\
+  ((has_error Q (ts_leaf s) = true /\
+    ((is_panic_of (l_err Q (ts_leaf s)) (l_data (ts_leaf s)) codes = TFalse /\ global_fail (l_ctx (ts_leaf s)) = false)
+     \/ ts_probe_reported s = true))
+   \/ (has_error Q (ts_leaf s) = false /\ ts_visited s = true)).
+Proof. exact step_effects_silent. Qed.
+Print Assumptions C10_frontier_silent_drop_is_complete.
+
+(* an invariant test with nothing reported (no ERROR line about a target transaction, no escaped exception, PASS of the
+   invariant transaction without warning): no target transaction of any depth was cut by an internal error *)
+Theorem C10_invariant_clean_pass_no_cut_target : forall (Q : Type) codes (ss : list (tstate Q)) rep,
+  inv_clean_pass (frontier_run Q codes ss) rep = true ->
+  forall s, In s ss -> ~ (root_err (l_ctx (ts_leaf s)) = EHalmos \/ l_data (ts_leaf s) = None).
+Proof. exact inv_clean_pass_no_cut. Qed.
+Print Assumptions C10_invariant_clean_pass_no_cut_target.
+
+(* the same precedence in run_test and setup(): a stuck path is an assertion / stuck candidate, never a normal or ignored
+   path, and never a post-setUp state -- whether or not it has an error of its own *)
+Theorem C10_run_test_stuck_never_dropped : forall pf fs he,
+  classify pf fs true he = CL_POTENTIAL \/ classify pf fs true he = CL_STUCK.
+Proof. exact classify_stuck_never_dropped. Qed.
+Print Assumptions C10_run_test_stuck_never_dropped.
+
+Theorem C10_setup_stuck_never_selected : forall he, setup_path_ok he true = false.
+Proof. exact setup_stuck_never_ok. Qed.
+Print Assumptions C10_setup_stuck_never_selected.
+
 Example C10_nonvacuous :
   (* symbolic condition at the bound: the true side is cut and logged; one below the bound it is followed *)
   d_follow_true (jumpi_decide R_SAT R_SAT 2 0 2) = false /\ d_logged (jumpi_decide R_SAT R_SAT 2 0 2) = true /\
@@ -185,5 +252,13 @@ Example C10_nonvacuous :
   depth_cut 200 201 = true /\ depth_cut 200 200 = false /\ depth_cut 0 1000000 = false /\
   (* a path stopped by an internal error inside a sub-call (data None, no error at the root) makes the test STUCK *)
   r_exit (run_test bool (fun _ => S_SAT) (fun _ => S_SAT) [1] 0
-            (mkExploration [mkLeaf (CNode ENone []) (Some []) true; mkLeaf (CNode ENone [CNode EHalmos []]) None true] false false)) = EX_STUCK.
+            (mkExploration [mkLeaf (CNode ENone []) (Some []) true; mkLeaf (CNode ENone [CNode EHalmos []]) None true] false false)) = EX_STUCK /\
+  (* invariant target: [completed call; call stopped by an internal error in its OWN frame (error set, no output);
+     ordinary revert; call stopped inside a nested call]: states 1 and 3 are reported, state 0 is the next frontier *)
+  frontier_run unit [1] [mkTstate (mkLeaf (CNode ENone []) (Some []) tt) false false;
+                         mkTstate (mkLeaf (CNode EHalmos []) None tt) false false;
+                         mkTstate (mkLeaf (CNode ERevert []) (Some []) tt) false false;
+                         mkTstate (mkLeaf (CNode ENone [CNode EHalmos []]) None tt) false false]
+    = mkFres [1%nat; 3%nat] [] [0%nat] None /\
+  step_effects unit [1] (mkTstate (mkLeaf (CNode EHalmos []) None tt) true true) = FE_ERROR.
 Proof. repeat split; reflexivity. Qed.
